@@ -16,7 +16,7 @@ import numpy as np
 from ..index import AnchorMissing, Unrecognised
 from ..absval import Evaluator, Obj, MethodRunner
 from ..cfg import CFG
-from ..astutil import u, body_walk, local_env, func_calls, walk_local, single_return_expr, inline_locals
+from ..astutil import linear_body, u, body_walk, local_env, func_calls, walk_local, single_return_expr, inline_locals
 from ..pend import edge_facts
 from .. import sym
 from .. import memo
@@ -122,7 +122,7 @@ def r2_hash_weights(ctx):
         ctx.ob(enc.where, "KmerEncoding.encode uses the weights |A|**arange(k)", ok, sym.canon(r.value.args[0]) if isinstance(r.value, ast.Call) else u(r.value), key="C13-R2|encode")
     # to_string: digits of the code, exhaustively for small k, n
     ts = ix.func(E, "KmerEncoding.to_string")
-    ifs = [s for s in ts.node.body if isinstance(s, ast.If) and "alphabet_size" in u(s.test)]
+    ifs = [s for s in linear_body(ts.node) if isinstance(s, ast.If) and "alphabet_size" in u(s.test)]
     ctx.need(len(ifs) == 1, "to_string: alphabet-size dispatch not found")
     bad = []
     total = 0
@@ -279,7 +279,7 @@ def r5_coverage_and_accumulation(ctx):
     ctx.ob(ce.where, "every count uses the same number of bins (the alphabet size)", mins == {"len(alphabet)"} and all(any(k.arg == "minlength" for k in c.keywords) for c in bcs), str(mins))
     # PWM accumulation
     cs = ix.func("bionumpy.sequence.position_weight_matrix", "PWM.calculate_scores")
-    loops = [x for x in cs.node.body if isinstance(x, ast.For)]
+    loops = [x for x in linear_body(cs.node) if isinstance(x, ast.For)]
     ctx.need(len(loops) == 1, "calculate_scores: accumulation loop not found")
     lp = loops[0]
     ok_iter = sym.canon(lp.iter, local_env(cs.node)) == "enumerate(self._matrix.T.copy())" and u(lp.target) == "(offset, row)"
